@@ -1,5 +1,6 @@
 import DracoProofs.EbEncStages
 import DracoProofs.EbAttSection
+import DracoProofs.EbSpecCheck
 /-
   Assembly of the stream-level statement: the attribute section the ENCODER model writes is the byte layout
   `AttPlan.bytes` of the plan made of the encoder's items and the decoder's sequences / point maps; hence
@@ -203,5 +204,56 @@ theorem eb_stream_decodes (ch : EbChoices) (g : Geometry) (md : Option GeometryM
   rw [h9, h10]
   simp only []
   exact runs_decodeGeometry_eb opts md mdBytes _ _ mesh _ hmd h1 (hconn coder h2) (runs_decodeAttributes opts mesh _ hok)
+
+/-- the geometry the decoder returns for the plan under the decoder options `opts` -/
+def planGeometry (opts : DecOpts) (mesh : Mesh) (plan : AttPlan) : Geometry :=
+  { isMesh := true, numPoints := mesh.numPoints, faces := facesOf mesh, atts := plan.attributes opts }
+
+/-- **eb_roundtrip_conditional** (stream level).  For a successful run of the Edgebreaker encoder model, IF
+    * `hconn` — the CONNECTIVITY LINK: the decoder's connectivity stage reads the encoder's connectivity bytes and builds
+      `mesh` (evaluated per case: `iso-ok` says this `mesh` is `ctIso` to the encoder's table),
+    * `hok`, `hokS` — `PlanOK` of the plan made of the encoder's items and the decoder's sequences / point maps, for the
+      ordinary and the transform-skipped decode (its value-block fields are `eb_value_block_conditional_iso`, its
+      parameter fields the sequential transform-parameter lemmas, its sequence / map fields the decoder's own runs),
+    * `hg1`, `hsize` — shape of the controllers (`generateControllers`, `rearrangeEncoders`),
+    * the FACE CORRESPONDENCE `σ` / `hface` / `hcover` — every decoded face is, corner tuple by corner tuple, an input
+      face (`EbTuples.row_corr_kind0…3` per attribute + `canonTri_rot`), no two decoded faces come from the same input
+      face, and every non-degenerate input face is decoded (`processed` covers them),
+    THEN the complete decoder, on the encoder's stream followed by arbitrary bytes, returns the plan's geometry and the
+    metadata, consumes exactly the stream — for both option sets — and the executable specification RoundTripOK
+    (`Spec.checkCore .edgebreaker`) accepts. -/
+theorem eb_roundtrip_conditional (ch : EbChoices) (g : Geometry) (md : Option GeometryMetadata) (o : EbOpts) (enc : Encoded)
+    (henc : encodeEdgebreaker ch g md o = .ok enc) (hmd : ∀ m, md = some m → m.WF')
+    (mesh : Mesh) (sides : List (SeqOut × Array Nat)) (hsides : enc.couts.size = sides.length)
+    (hconn : ∀ coder, traversalCoder o g.faces.length = some coder →
+      Runs decodeConnectivity 514 ([coder] ++ enc.conn.bytes) mesh 514)
+    (hg1 : ∀ e : Nat, (enc.controllers[e]!).encs.toList.map (·.attId) = (enc.controllers[e]!).attIds.toList)
+    (hsize : enc.order.size = enc.controllers.size)
+    (plan : AttPlan) (hplan : plan = planOf o g.atts.toArray enc.conn enc.controllers enc.couts.toList sides)
+    (hok : PlanOK {} mesh plan) (hokS : PlanOK { skip := allTypes } mesh plan)
+    (req : Spec.QuantReq) (ms : List Spec.Matched)
+    (hlen : g.atts.length = (plan.attributes {}).length)
+    (huid : (g.atts.map (·.uniqueId)).Nodup)
+    (hms : Spec.collect (g.atts.map (Spec.matchOne req (planGeometry {} mesh plan)
+      (planGeometry { skip := allTypes } mesh plan))) = some ms)
+    (σ : Nat → Nat)
+    (hσlt : ∀ i, i < (facesOf mesh).length → σ i < g.faces.length)
+    (hσinj : ∀ i j, i < (facesOf mesh).length → j < (facesOf mesh).length → σ i = σ j → i = j)
+    (hface : ∀ i (hi : i < (facesOf mesh).length), T_dec ms ((facesOf mesh)[i]) = T_exp ms (g.faces[σ i]'(hσlt i hi)))
+    (hcover : ∀ j (hj : j < g.faces.length), nondegFace g (g.faces[j]) = true →
+      ∃ i, i < (facesOf mesh).length ∧ σ i = j)
+    (extra : Bytes) :
+    ∃ st st',
+      decodeGeometry {} { rest := enc.bytes ++ extra } = (some ⟨planGeometry {} mesh plan, md⟩, st) ∧ st.rest = extra ∧
+      decodeGeometry { skip := allTypes } { rest := enc.bytes ++ extra } =
+        (some ⟨planGeometry { skip := allTypes } mesh plan, md⟩, st') ∧ st'.rest = extra ∧
+      Spec.checkCore .edgebreaker req g (planGeometry {} mesh plan) (planGeometry { skip := allTypes } mesh plan) = true := by
+  subst hplan
+  obtain ⟨st, a1, a2, _⟩ := (eb_stream_decodes ch g md o enc henc hmd {} mesh sides hsides hconn hg1 hsize hok).run
+    { rest := enc.bytes ++ extra } extra rfl rfl
+  obtain ⟨st', b1, b2, _⟩ := (eb_stream_decodes ch g md o enc henc hmd { skip := allTypes } mesh sides hsides hconn hg1
+    hsize hokS).run { rest := enc.bytes ++ extra } extra rfl rfl
+  refine ⟨st, st', a1, a2, b1, b2, ?_⟩
+  exact checkCore_edgebreaker_of_faces req g _ _ ms hlen huid hms σ hσlt hσinj hface hcover
 
 end Draco.EbEnc
